@@ -190,19 +190,101 @@ def no_flooring(rep, F, rule='R-NOCALL'):
     return len(names), ncalls
 
 
+def _const_eval(t):
+    """value of a literal arithmetic term (promoted constants such as `i64::MAX as u64 + 1`)"""
+    t = TB.strip_refs(t)
+    if isinstance(t, tuple) and t:
+        if t[0] == 'const' and isinstance(t[1], int):
+            return t[1]
+        if t[0] == 'cast':
+            return _const_eval(t[1])
+        if t[0] == 'ovf':
+            return _const_eval(t[1])
+        if t[0] == 'bin' and t[1] in ('Add', 'Sub'):
+            a, b = _const_eval(t[2]), _const_eval(t[3])
+            if a is not None and b is not None:
+                return a + b if t[1] == 'Add' else a - b
+    return None
+
+
+def min_boundary(rep, F, rule='R-TABLE'):
+    """the negative scale-0 arm of to_i64 / to_i128: the unsigned magnitude d is reinterpreted as a signed integer only
+    under d < 2^(W-1); d == 2^(W-1) gives MIN; anything larger gives None.  A reinterpreting cast of the magnitude that is
+    not under that comparison (or wrapping arithmetic) maps out-of-range negatives onto in-range values"""
+    n = 0
+    for fn in F.real_fns():
+        m = re.search(r"ToPrimitive for BigDecimalRef(<'_>)?>::to_i(64|128)::\{closure#\d+\}$", fn.name)
+        if not m or not fn.is_closure:
+            continue
+        W = int(m.group(2))
+        key = re.sub(r'::\{closure#\d+\}$', '', fn.key) + ':min-boundary'
+        n += 1
+        rep.add_functions([fn.name])
+        wrap = [cdef(t) for b, t in fn.calls() if re.search(r'::(wrapping|overflowing|saturating|unchecked)_\w+$', cdef(t) or '')]
+        if wrap:
+            rep.violation(rule, key, 'wrapping/saturating arithmetic (%s) on the magnitude of a negative value: magnitudes above 2^%d wrap into range instead of giving None' % (wrap[0].split('::')[-1], W - 1), fn.where())
+            continue
+        try:
+            paths = TB.PathEnum(F, fn, max_paths=16).run()
+        except TB.Undecided as e:
+            rep.undecided(rule, key, str(e), fn.where())
+            continue
+        probs, cells = [], {}
+        for atoms, out in paths:
+            o = TB.strip_refs(out)
+            guard = None
+            for a, c in atoms:
+                a = TB.strip_refs(a)
+                if a[0] == 'discr' and a[1][0] == 'cmp' and a[1][1] == TB.T('param', 2) and c[0] == 'eq':
+                    bound = a[1][2]
+                    if bound[0] == 'promoted':
+                        pf = F.fns.get('%s::promoted[%d]' % (fn.name, bound[1]))
+                        bv = None
+                        if pf is not None:
+                            try:
+                                pp = TB.PathEnum(F, pf, max_paths=2).run()
+                                bv = _const_eval(pp[0][1]) if len(pp) == 1 else None
+                            except TB.Undecided:
+                                pass
+                    else:
+                        bv = _const_eval(bound)
+                    guard = ({255: 'Less', 0: 'Equal', 1: 'Greater'}.get(c[1]), bv)
+            casts = [x for x in TB.subterms(o) if x[0] == 'cast' and TB.strip_refs(x[1]) == TB.T('param', 2) and str(x[2]).startswith('i')]
+            if casts and not (guard and guard[0] == 'Less' and guard[1] is not None and guard[1] <= 2 ** (W - 1)):
+                probs.append('the magnitude is reinterpreted `as i%d` without d < 2^%d being established on that path (guard: %s)' % (W, W - 1, guard))
+            if guard and guard[0]:
+                cells[guard[0]] = TB.show(o)
+                if guard[1] != 2 ** (W - 1):
+                    probs.append('the boundary constant is %s, not 2^%d' % (guard[1], W - 1))
+        want = {'Less': 'Option::Some(neg(cast(arg2)))', 'Equal': 'Option::Some(%d)' % (-2 ** (W - 1)), 'Greater': 'Option::None'}
+        if not probs and cells:
+            for k, v in want.items():
+                if cells.get(k) != v:
+                    probs.append('cell d %s 2^%d must be %s; it is %s' % ({'Less': '<', 'Equal': '==', 'Greater': '>'}[k], W - 1, v, cells.get(k)))
+        if probs:
+            rep.violation(rule, key, probs[0], fn.where())
+        elif not cells:
+            rep.undecided(rule, key, 'no comparison of the magnitude with the boundary recognised', fn.where())
+        else:
+            rep.ok(rule, key, 'd < 2^%d -> -(d as i%d); d == 2^%d -> i%d::MIN; d > 2^%d -> None' % (W - 1, W, W - 1, W, W - 1), fn.where())
+    return n
+
+
 def run(ctx):
     rep = ctx.rep
     rep.explanation = ('Static MIR analysis. R-TABLE: the (sign, scale==0) dispatch of to_i64/to_i128/to_u64/to_u128 on BigDecimalRef is extracted from the '
                        'CFG: Minus->None for unsigned, NoSign->Some(0), every other cell ends in a checked integer conversion of the digits or of the '
                        'value truncated to scale 0. R-FWD: owned ToPrimitive methods return the same-named method of self.to_ref(). R-PROJ: the 20 '
                        'From<int>/From<&int>, From<BigInt>, From<(T,i64)>, FromPrimitive::from_i*/u* and ToBigInt are exact projections (scale literal 0). '
-                       'R-NOCALL: no flooring/euclidean division is reachable from the conversions or the truncating rescale. NOT decided: the MIN '
-                       'boundary arithmetic inside the closures, is_integer.')
+                       'R-NOCALL: no flooring/euclidean division is reachable from the conversions or the truncating rescale. The MIN boundary of to_i64/to_i128 (d < 2^(W-1) -> -(d as iW), == -> MIN, > -> None) is a 3-cell table with the boundary constant evaluated from its literal arithmetic. NOT decided: '
+                       'is_integer.')
     F = ctx.facts('default', 'rel')
     n1 = sign_tables(rep, F)
     n2 = owned_forwarders(rep, F)
     n3 = projections(rep, F)
     nf, nc = no_flooring(rep, F)
+    nmb = min_boundary(rep, F)
+    rep.floor('MIN-boundary closures', nmb, 2)
     rep.floor('sign-dispatch cells', n1, 36)
     rep.floor('owned forwarders', n2, 5)
     rep.floor('projection constructors', n3, 26)
